@@ -559,3 +559,36 @@ def c16i(ctx):
         ok = bool(chk) and bool(use) and all(any(g.dominates(c, n) and c != n for c, _ in chk) for n, _ in use)
         ctx.check(ok, 'WMTSServer.%s:dimension-pre-check-first' % m, 'check_request_dimensions dominates the rendering of the tile', h,
                   fail='WMTSServer.%s renders the tile without the dimension pre-check' % m)
+
+
+@rule('C16.j', floor=2)
+def c16j(ctx):
+    """a map request beyond the pixel limit is refused before it costs anything -- also one whose size is not a size: the limit is a
+    bound on width * height, and the product of two negative values is positive and small.  check_map_request refuses a width or height
+    that is not positive (on every path that leaves the function normally both have been compared with 0), and it runs before the map
+    is rendered"""
+    fn = ctx.fn('mapproxy/service/wms.py:WMSServer.check_map_request')
+    g = fn.cfg
+
+    def comp(e, i):
+        c = fn.canon.expr(e)
+        return isinstance(c, ast.Subscript) and const_value(c.slice) == i and unparse(c.value).endswith('params.size')
+
+    ok = True
+    after = g.find(lambda x: is_call(x, 'self.validate_layers', 'request.validate_format', 'request.validate_srs'))
+    for i in (0, 1):
+        # every way to the validation calls that follow (the normal way through the function) passes a test that entails
+        # `0 < size[i]` (written `not size[i] <= 0`), `not size[i] < 1`, or that no size was given at all
+        alts = [(lambda at, i=i: at.op == '<' and const_value(at.left) == 0 and comp(at.right, i), True),
+                (lambda at, i=i: at.op == '<' and comp(at.left, i) and const_value(at.right) in (0, 1), False),
+                (lambda at: at.op == '==' and 'None' in at.text and 'size' in at.text, True)]
+        ok = ok and bool(after) and all(g.guarded_any(n, alts) for n, x in after)
+    ctx.check(ok, 'WMSServer.check_map_request:size-positive', 'a width or height <= 0 leaves check_map_request with an error', fn,
+              fail='check_map_request accepts a width or height that is not positive: the pixel limit (a bound on the product) lets two negative '
+                   'values through and the layers are rendered before the image step fails')
+    mp = ctx.fn('mapproxy/service/wms.py:WMSServer.map')
+    gm = mp.cfg
+    chk = gm.find(lambda x: is_call(x, 'self.check_map_request'))
+    rnd = gm.find(lambda x: is_call(x, 'LayerRenderer', 'renderer.render', 'self.authorized_layers'))
+    ok = bool(chk) and bool(rnd) and all(any(gm.dominates(c, n) and c != n for c, _ in chk) for n, x in rnd)
+    ctx.check(ok, 'WMSServer.map:checked-before-rendering', 'check_map_request dominates the rendering of the map', mp)
